@@ -13,7 +13,7 @@
 (***************************************************************************)
 EXTENDS Reps, Eval, Json, TLCExt, SequencesExt
 
-CONSTANTS Family, K
+CONSTANTS Family, K, MUT_ScanLastOnly
 
 VARIABLES cs, phase, res
 vars == <<cs, phase, res>>
@@ -43,6 +43,15 @@ EQPool(z) ==
 \* ------------------------------------------------------------ uniqueItems / enum / const
 UAElems == {Num(R_0), Num(R_m1), Num(R_1), Str("1"), Null, Bool(TRUE), Arr(<<Num(R_m1)>>), Obj([a |-> Num(R_0)]), Num(R_2p63)}
                \cup (IF K >= 2 THEN {Str("a"), Num(R_2), Obj([a |-> Num(R_1), b |-> Num(R_2)])} ELSE {})
+UAColl == {Null, Bool(FALSE), Bool(TRUE), Num(R_0), Str(""), EmptyArr, EmptyObj, Arr(<<Null>>), Arr(<<Bool(FALSE)>>),
+           Arr(<<Str("ab"), Str("a")>>), Arr(<<Str("a"), Str("ba")>>), Obj([a |-> Str("ba")]), Obj([ab |-> Str("a")]), Str("aba")}
+UAColl2 == {Null, Bool(FALSE), Arr(<<Null>>), Arr(<<Bool(FALSE)>>), Arr(<<Bool(TRUE)>>)}
+\* a duplicate separated from its twin by items that are likely to share its hash bucket under a
+\* simple hash (null / false / 0 / "" / empty containers; sequences with the same concatenation):
+\* every earlier item with the same hash must be compared, not only the latest.  (few representations:
+\* the point is the position of the twin, not how it is carried)
+UACollPlain == {Arr(<<x, y, x>>) : x \in UAColl, y \in UAColl} \cup {Arr(<<x, y, w, x>>) : x \in UAColl2, y \in UAColl2, w \in UAColl2}
+UACollReps == UNION {RepsOf(v, {"float64"}, {"any"}, {"any"}) : v \in UACollPlain}
 UAPlain(z) == {Arr(e) : e \in UNION {[1..n -> UAElems] : n \in 0..(IF K >= 2 THEN 3 ELSE 2)}}
               \cup {Arr(<<Num(R_1), Num(R_2), Num(R_0), x, Num(R_1h)>>) : x \in {Num(R_1), Num(R_4), Num(R_0)}}
 UAReps(v) == RepsOf(v, IF K >= 2 THEN {"float64", "int", "jsonNumber", "uint64"} ELSE {"float64", "jsonNumber", "negzero", "uint64"}, {"any", "arrayany", "array"}, IF K >= 2 THEN {"any", "typed"} ELSE {"any"})
@@ -64,7 +73,7 @@ RVPlain ==
    Num(R_2p63), Arr(<<Num(R_2p63), Num(R_2p63)>>), Arr(<<Num(R_i64max), Num(R_i64max)>>),
    Arr(<<Obj([a |-> Num(R_2p63)]), Obj([a |-> Num(R_2p63)])>>), Arr(<<Num(R_i64min), Num(R_i64min)>>)}
 RVReps(z) ==
-  UNION {WithWraps(RepsOf(v, IF K >= 2 THEN NR1 ELSE {"float64", "int", "jsonNumberE", "jsonNumber", "uint64"}, AR, OR),
+  UNION {WithWraps(RepsOf(v, IF K >= 2 THEN NR1 ELSE {"float64", "int", "jsonNumberE", "jsonNumber", "uint64", "uint8"}, AR, OR),
                    IF v.t \in {"arr", "obj"} THEN {<<>>, <<"ptr">>} ELSE Wraps) : v \in RVPlain}
 IntS == [type |-> "integer"]
 RVSchemas ==
@@ -94,7 +103,7 @@ RVSeq == IF Family = "RV" THEN SetToSeq(RVReps(0)) ELSE <<>>
 
 Cases ==
   CASE Family = "EQ" -> EQPool(0)
-    [] Family = "UA" -> UNION {UAReps(v) : v \in UAPlain(0)}
+    [] Family = "UA" -> UNION {UAReps(v) : v \in UAPlain(0)} \cup UACollReps
     [] Family = "RV" -> {RVSchemas[i] : i \in DOMAIN RVSchemas}
     [] Family = "HU" -> {Arr(e) : e \in UNION {[1..n -> {Num(R_1), Num(R_2), Str("a")}] : n \in 0..4}}
 
@@ -127,9 +136,12 @@ ClassRefines ==
 \* pairwise definition.
 RECURSIVE Scan(_, _, _)
 \* returns TRUE iff the scan finds no duplicate
+\* (MUT_ScanLastOnly: the bucket keeps only the latest index with that hash - a duplicate of an OLDER
+\* member of the same collision chain is then missed; TLC must find it)
 Scan(e, h, i) ==
   IF i > Len(e) THEN TRUE
-  ELSE IF \E j \in 1..(i - 1) : h[j] = h[i] /\ EqualCode(e[i], e[j]) THEN FALSE
+  ELSE IF \E j \in 1..(i - 1) : /\ h[j] = h[i] /\ EqualCode(e[i], e[j])
+                                /\ (MUT_ScanLastOnly => \A k \in (j + 1)..(i - 1) : h[k] # h[i]) THEN FALSE
   ELSE Scan(e, h, i + 1)
 HashLaw(e, h) == \A i, j \in DOMAIN e : SameJSON(e[i], e[j]) => h[i] = h[j]
 HashTheorem ==
